@@ -49,7 +49,7 @@ def drive_and_validate(res, runs, module="ShardTrace", cmd="shard", workers=None
         name = run["name"]
         out = os.path.join(vlib.subdir("traces"), name + ".ndjson")
         rc, so, se = vlib.run_vh([cmd] + run["args"] + ["-out", out, "-dir", vlib.subdir("db-" + name)],
-                                 timeout=run.get("timeout", 900))
+                                 timeout=run.get("timeout", 400))
         r = {"run": run, "trace": out, "rc": rc, "stderr": se, "stdout": so}
         if rc != 0:
             return r
@@ -117,6 +117,8 @@ def binding_selftest(res, results, mutate, module="ShardTrace", what="", invaria
             res.coverage.setdefault("binding_selftests", []).append(
                 f"{what}: corrupted copy of {r['run']['name']} rejected at line {tv['matched'] + 1}")
             return
+    if res.violations:
+        return  # nothing was accepted because the code under test misbehaves: the verdict stands
     raise Inconclusive("binding self-test could not run (no accepted trace with an applicable line)")
 
 
@@ -362,9 +364,9 @@ def c03(res, tier, seed, replay):
         # larger graphs: soundness (never dead / out-of-filter / duplicate / entry node, right distances, order)
         for m in (["euclidean", "hamming"] if tier == "quick" else METRICS[:5]):
             runs.append({"name": f"vam-big-{m}-{s}",
-                         "args": ["-mode", "rank", "-config", f"vamana-{m}", "-nids", 150 if tier == "quick" else 400,
-                                  "-maxbatch", 50, "-seed", seed * 100 + 60 + s, "-hist", 1 if tier == "quick" else 3,
-                                  "-batches", 25 if tier == "quick" else 60, "-rank", 6]})
+                         "args": ["-mode", "rank", "-config", f"vamana-{m}", "-nids", 300 if tier == "quick" else 500,
+                                  "-maxbatch", 80, "-seed", seed * 100 + 60 + s, "-hist", 1 if tier == "quick" else 3,
+                                  "-batches", 25 if tier == "quick" else 60, "-rank", 24]})
     results = drive_and_validate(res, runs)
     for r in results[:2]:
         sample_from_trace_nonempty(res, r["trace"], "Vamana", cap=2)
